@@ -628,14 +628,19 @@ fn ops_time_add_via_apply_binary() {
     assert!(ok, "apply_binary returns time_arith's result for TIME + TIME");
 }
 
-/// point (ticks) +/- TIME under the default profile (1 tick = 1 ms): the duration is truncated to whole ticks.
+/// point (ticks) +/- TIME under the default profile (1 tick = 1 ms): the duration is truncated to
+/// whole ticks. The oracle has no divider: the tick count k is an assumed witness of the truncating
+/// decomposition  t = k * 10^6 + r, |r| < 10^6, sign(r) = sign(t)  (it exists and is unique; the
+/// cover! statements show the assumption is satisfiable).
 macro_rules! point_with_time {
     ($name:ident, $mkp:expr, $var:ident, $op:ident, $swap:expr, |$a:ident, $k:ident| $e:expr) => {
         #[kani::proof]
         fn $name() {
             let $a: i64 = kani::any();
             let t: i64 = kani::any();
-            let $k = (t / 1_000_000) as i128;
+            let kw: i64 = kani::any();
+            kani::assume(trunc_decomp_ok(t as i128, 1_000_000, kw as i128, t as i128 - kw as i128 * 1_000_000));
+            let $k = kw as i128;
             let (l, rr) = if $swap { (mk_time(t), $mkp($a)) } else { ($mkp($a), mk_time(t)) };
             let r: TR = time_arith(BinaryOp::$op, &l, &rr, &profile());
             let e: i128 = $e;
@@ -645,7 +650,8 @@ macro_rules! point_with_time {
                 matches!(&r, Some(Err(RuntimeError::DateTimeRange(_))))
             };
             kani::cover!(!fits_i64(e));
-            kani::cover!(fits_i64(e) && t < 0);
+            kani::cover!(fits_i64(e) && t < -1_000_000);
+            kani::cover!(fits_i64(e) && t > 1_999_999);
             std::mem::forget((r, l, rr));
             assert!(ok, "TOD/DT +/- TIME is exact in ticks, DateTimeRange fault iff outside the representable range");
         }
